@@ -70,6 +70,15 @@ def run_property(acc, strategy, check, nontrivial, n_examples, seed, shrink=True
             acc.violation(case, v)
             suppressed.add(v.kind)
             continue
+        except BaseException as exc:     # noqa: BLE001
+            # Hypothesis wraps a failure it cannot reproduce (library behaviour that depends on
+            # earlier calls) in Flaky / FlakyFailure.  The violation was observed, so report it.
+            if state["last"] is not None and _is_flaky(exc):
+                case, v = state["last"]
+                acc.violation(case, Violation(v.kind, "[not reproducible on immediate re-execution: history dependent] " + v.detail))
+                suppressed.add(v.kind)
+                continue
+            raise
         break
     return acc
 
@@ -103,5 +112,67 @@ def run_machine(acc, machine_factory, n_examples, steps, seed, shrink=True):
             acc.violation(case, v)
             suppressed.add(v.kind)
             continue
+        except BaseException as exc:     # noqa: BLE001
+            if state["last"] is not None and _is_flaky(exc):
+                case, v = state["last"]
+                acc.violation(case, Violation(v.kind, "[not reproducible on immediate re-execution: history dependent] " + v.detail))
+                suppressed.add(v.kind)
+                continue
+            raise
         break
     return acc
+
+
+def _is_flaky(exc):
+    import hypothesis.errors as he
+    names = [n for n in ("Flaky", "FlakyFailure", "FlakyReplay") if hasattr(he, n)]
+    if isinstance(exc, tuple(getattr(he, n) for n in names)):
+        return True
+    if isinstance(exc, BaseExceptionGroup):
+        return any(_is_flaky(e) or isinstance(e, Violation) for e in exc.exceptions)
+    return False
+
+
+def history_machine_factory(runner_cls, step_strategies, finish_labels, init_strategy=None):
+    """Generic state machine: every rule draws one JSON step from one of `step_strategies`
+    (dict name -> strategy) and hands it to runner.step(step); the runner raises Violation.
+    finish_labels(runner) -> (labels, nontrivial)."""
+    from hypothesis.stateful import RuleBasedStateMachine, initialize, rule
+
+    def factory(on_finish, on_violation):
+        ns = {}
+
+        def __init__(self):
+            RuleBasedStateMachine.__init__(self)
+            self.runner = runner_cls()
+            self.history = []
+
+        def _do(self, step):
+            self.history.append(step)
+            try:
+                self.runner.step(step)
+            except Violation as v:
+                if on_violation(self.history, v):
+                    raise
+                self.runner = runner_cls()          # suppressed kind: restart behind it
+                self.history = []
+
+        def teardown(self):
+            lab, nt = finish_labels(self.runner)
+            on_finish(list(self.history), lab, nt)
+
+        ns.update(__init__=__init__, _do=_do, teardown=teardown)
+        if init_strategy is not None:
+            @initialize(step=init_strategy)
+            def init_step(self, step):
+                self._do(step)
+            ns["init_step"] = init_step
+        for name, strat in step_strategies.items():
+            def make(strat):
+                @rule(step=strat)
+                def r(self, step):
+                    self._do(step)
+                return r
+            ns["rule_" + name] = make(strat)
+        return type("HistoryMachine", (RuleBasedStateMachine,), ns)
+    return factory
